@@ -16,9 +16,6 @@ theorem decodeTok_item : ∀ b : Byte, decodeTok (blockItem b) = some b :=
 theorem decodeTok_sp_item : ∀ b : Byte, decodeTok (' ' :: blockItem b) = some b :=
   byte_forall (by decide +kernel)
 
-theorem item_class : ∀ b : Byte, (blockItem b).all dataClass = true :=
-  byte_forall (by decide +kernel)
-
 theorem item_noComma : ∀ b : Byte, (blockItem b).all (· != ',') = true :=
   byte_forall (by decide +kernel)
 
@@ -62,23 +59,65 @@ theorem decodeHexList_renderItems (b : Byte) (bs : List Byte) : decodeHexList (r
   rw [splitComma_renderItems]
   rw [List.mapM_cons, decodeTok_item, mapM_sp_items]; rfl
 
-theorem renderItems_class (bs : List Byte) : (renderItems bs).all dataClass = true := by
-  induction bs with
-  | nil => rfl
-  | cons b bs ih =>
-    cases bs with
-    | nil => simpa [renderItems] using item_class b
-    | cons b' bs =>
-      simp only [renderItems, List.all_append, List.all_cons, Bool.and_eq_true]
-      exact ⟨item_class b, by decide, by decide, ih⟩
+/-! ### the block expression `\[('0x..'(?:,\s*'0x..')*)\]\s*$` on a rendered block -/
 
-theorem takeWhile_class (g rest : Text) (h : g.all dataClass = true) :
-    (g ++ ']' :: rest).takeWhile dataClass = g ∧ (g ++ ']' :: rest).dropWhile dataClass = ']' :: rest := by
-  induction g with
-  | nil => exact ⟨by rw [List.nil_append, List.takeWhile_cons]; rfl, by rw [List.nil_append, List.dropWhile_cons]; rfl⟩
-  | cons c g ih =>
-    simp only [List.all_cons, Bool.and_eq_true] at h
-    simp [List.takeWhile_cons, List.dropWhile_cons, h.1, ih h.2]
+theorem hexChar_isHex (n : Nat) : isHexDigit (hexChar n) = true := by
+  have h : n % 16 < 16 := Nat.mod_lt _ (by decide)
+  have : ∀ k, k < 16 → isHexDigit (if k < 10 then Char.ofNat (48 + k) else Char.ofNat (87 + k)) = true := by decide
+  exact this _ h
+
+theorem itemAt_item (b : Byte) (r : Text) : itemAt (blockItem b ++ r) = some r := by
+  have q : isHexDigit '\'' = false := by decide
+  unfold blockItem pyHex
+  split
+  · simp [itemAt, List.takeWhile, List.dropWhile, hexChar_isHex, q]
+  · simp [itemAt, List.takeWhile, List.dropWhile, hexChar_isHex, q]
+
+/-- the items after the first one, each with its `, ` -/
+def restItems (bs : List Byte) : Text := bs.flatMap fun b => ',' :: ' ' :: blockItem b
+
+theorem renderItems_cons (b : Byte) (bs : List Byte) : renderItems (b :: bs) = blockItem b ++ restItems bs := by
+  induction bs generalizing b with
+  | nil => simp [renderItems, restItems]
+  | cons b' bs ih => simp only [renderItems, ih b']; simp [restItems]
+
+theorem moreItems_rest (bs : List Byte) (tail : Text) (f : Nat) (hf : bs.length ≤ f) :
+    moreItems f (restItems bs ++ ']' :: tail) = ']' :: tail := by
+  induction bs generalizing f with
+  | nil => cases f <;> simp [restItems, moreItems]
+  | cons b bs ih =>
+    cases f with
+    | zero => simp at hf
+    | succ f =>
+      have e : restItems (b :: bs) ++ ']' :: tail = ',' :: ' ' :: (blockItem b ++ (restItems bs ++ ']' :: tail)) := by
+        simp [restItems]
+      have hq : (blockItem b ++ (restItems bs ++ ']' :: tail)).dropWhile isSpace = blockItem b ++ (restItems bs ++ ']' :: tail) := by
+        rfl
+      rw [e]
+      simp only [moreItems, beq_self_eq_true, if_true]
+      have hsp : List.dropWhile isSpace (' ' :: (blockItem b ++ (restItems bs ++ ']' :: tail))) =
+          blockItem b ++ (restItems bs ++ ']' :: tail) := by
+        rfl
+      rw [hsp, itemAt_item]
+      exact ih f (by simp at hf; omega)
+
+theorem restItems_length (bs : List Byte) : bs.length ≤ (restItems bs).length := by
+  induction bs with
+  | nil => simp [restItems]
+  | cons b bs ih => simp [restItems] at ih ⊢; omega
+
+theorem listAt_block (b : Byte) (bs : List Byte) (tail : Text) (ht : tail.all isSpace = true) :
+    listAt (renderItems (b :: bs) ++ ']' :: tail) = some (renderItems (b :: bs)) := by
+  unfold listAt
+  rw [renderItems_cons, List.append_assoc, itemAt_item]
+  have hf : bs.length ≤ (restItems bs ++ ']' :: tail).length := by
+    have := restItems_length bs; simp; omega
+  simp only [moreItems_rest bs tail _ hf, beq_self_eq_true, ht, Bool.and_self, if_true]
+  congr 1
+  have : (blockItem b ++ (restItems bs ++ ']' :: tail)).length - (']' :: tail).length = (blockItem b ++ restItems bs).length := by
+    simp; omega
+  rw [this, ← List.append_assoc, List.take_left']
+  rfl
 
 theorem reData_skip (pfx s : Text) (h : pfx.all (· != '[') = true) : reData (pfx ++ s) = reData s := by
   induction pfx with
@@ -87,11 +126,103 @@ theorem reData_skip (pfx s : Text) (h : pfx.all (· != '[') = true) : reData (pf
     simp only [List.all_cons, Bool.and_eq_true, bne_iff_ne, ne_eq] at h
     simp [reData, h.1, ih h.2]
 
-/-- `_re_data`'s regex on a line carrying a rendered block after a `[`-free prefix finds exactly the items -/
-theorem reData_block (pfx sfx : Text) (bs : List Byte) (h : pfx.all (· != '[') = true) :
-    reData (pfx ++ (renderBlockL bs ++ sfx)) = some (renderItems bs) := by
+/-- `_re_data`'s regex on a line carrying a rendered non-empty block after a `[`-free prefix and before white space only
+(the line end) finds exactly the items -/
+theorem reData_block (pfx sfx : Text) (b : Byte) (bs : List Byte) (h : pfx.all (· != '[') = true)
+    (hs : sfx.all isSpace = true) :
+    reData (pfx ++ (renderBlockL (b :: bs) ++ sfx)) = some (renderItems (b :: bs)) := by
   rw [reData_skip _ _ h]
-  have := takeWhile_class (renderItems bs) sfx (renderItems_class bs)
-  simp [renderBlockL, reData, this.1, this.2]
+  have := listAt_block b bs sfx hs
+  simp only [renderBlockL, List.cons_append, List.nil_append, List.append_assoc, reData, beq_self_eq_true, if_true] at this ⊢
+  rw [this]
+
+/-! ### a line whose last visible character is not `]` cannot carry a block -/
+
+/-- the last non-blank character is `]` -/
+def endsClose : Text → Bool
+  | [] => false
+  | c :: s => endsClose s || (c == ']' && s.all isSpace)
+
+theorem endsClose_append (a b : Text) : endsClose (a ++ b) = (endsClose b || (endsClose a && b.all isSpace)) := by
+  induction a with
+  | nil => simp [endsClose]
+  | cons c a ih =>
+    simp only [List.cons_append, endsClose, ih, List.all_append]
+    cases endsClose b <;> cases endsClose a <;> cases (c == ']') <;> cases a.all isSpace <;> cases b.all isSpace <;> rfl
+
+theorem endsClose_close (x tail : Text) (ht : tail.all isSpace = true) : endsClose (x ++ ']' :: tail) = true := by
+  rw [endsClose_append]; simp [endsClose, ht]
+
+theorem itemAt_suffix (s r : Text) (h : itemAt s = some r) : ∃ p, s = p ++ r := by
+  match s, h with
+  | a :: b :: c :: s, h =>
+    simp only [itemAt] at h
+    split at h
+    · split at h
+      · rename_i d r' hd
+        split at h
+        · cases h
+          have := List.takeWhile_append_dropWhile (p := isHexDigit) (l := s)
+          refine ⟨a :: b :: c :: (s.takeWhile isHexDigit ++ [d]), ?_⟩
+          simp only [List.cons_append, List.append_assoc, List.nil_append]
+          rw [← hd, this]
+        · cases h
+      · cases h
+    · cases h
+
+theorem moreItems_suffix (f : Nat) (s : Text) : ∃ p, s = p ++ moreItems f s := by
+  induction f generalizing s with
+  | zero => exact ⟨[], rfl⟩
+  | succ f ih =>
+    cases s with
+    | nil => exact ⟨[], rfl⟩
+    | cons c s' =>
+      simp only [moreItems]
+      split
+      · split
+        · rename_i r hr
+          obtain ⟨p1, e1⟩ := itemAt_suffix _ _ hr
+          obtain ⟨p2, e2⟩ := ih r
+          have := List.takeWhile_append_dropWhile (p := isSpace) (l := s')
+          refine ⟨c :: (s'.takeWhile isSpace ++ p1 ++ p2), ?_⟩
+          rw [List.cons_append, List.append_assoc, List.append_assoc, ← e2, ← e1, this]
+        · exact ⟨[], rfl⟩
+      · exact ⟨[], rfl⟩
+
+theorem listAt_endsClose (s g : Text) (h : listAt s = some g) : endsClose s = true := by
+  unfold listAt at h
+  split at h
+  · cases h
+  · rename_i r hr
+    obtain ⟨p1, e1⟩ := itemAt_suffix _ _ hr
+    obtain ⟨p2, e2⟩ := moreItems_suffix r.length r
+    simp only at h
+    split at h
+    · rename_i d tail hrest
+      split at h
+      · rename_i hc
+        simp only [Bool.and_eq_true, beq_iff_eq] at hc
+        rw [e1, e2, hrest, hc.1, ← List.append_assoc]
+        exact endsClose_close _ _ hc.2
+      · cases h
+    · cases h
+
+/-- the block expression matches only lines whose last non-blank character is `]` -/
+theorem reData_endsClose (t g : Text) (h : reData t = some g) : endsClose t = true := by
+  induction t with
+  | nil => simp [reData] at h
+  | cons c s ih =>
+    simp only [reData] at h
+    have sub : endsClose s = true → endsClose (c :: s) = true := by intro e; simp [endsClose, e]
+    split at h
+    · cases hl : listAt s with
+      | some g' => exact sub (listAt_endsClose s g' hl)
+      | none => rw [hl] at h; exact sub (ih h)
+    · exact sub (ih h)
+
+theorem reData_none_of_open (t : Text) (h : endsClose t = false) : reData t = none := by
+  cases hr : reData t with
+  | none => rfl
+  | some g => rw [reData_endsClose t g hr] at h; cases h
 
 end GeckoModel.Snapshot
